@@ -315,6 +315,8 @@ class LineRunner:
         if self.proto == 'imap':
             if new and new[-1].kind == 'cont':
                 return True
+            if any(r.kind == 'cont' and r.text == b'Idling.' for r in new):
+                return True       # updates may follow '+ Idling.' at once
             return out.endswith(b'\r\n') and out.rsplit(b'\r\n', 2)[-2:-1] \
                 and out.rsplit(b'\r\n', 2)[-2].startswith(b'+')
         return bool(new) and new[-1][0] == 'data' and not any(
